@@ -3,7 +3,8 @@ import GoNeat.Driver.Genetics
 import GoNeat.Driver.Operators
 import GoNeat.Driver.Population
 import GoNeat.Driver.Activations
+import GoNeat.Driver.Solver
 
 namespace GoNeat.Driver
-def allOps : List (String × Handler) := geneticsOps ++ operatorOps ++ populationOps ++ activationsOps
+def allOps : List (String × Handler) := geneticsOps ++ operatorOps ++ populationOps ++ activationsOps ++ solverOps
 end GoNeat.Driver
